@@ -18,7 +18,10 @@ Inductive case :=
          (obs : hdr str)                              (* response header map as the client sees it (without Set-Cookie) *)
          (obs_cookies : list hval)                    (* Set-Cookie values in order: tuples for the proxy's cookie names, raw text otherwise *)
          (obs_trailer : hdr str)                      (* the chunked trailer section as the client sees it (resp.Trailer) — NOT header fields *)
-| CAuth (endpoint : N) (status : N) (obs : hdr str).
+| CAuth (endpoint : N) (status : N) (obs : hdr str)          (* AuthenticatorMux served directly (the anchored handlers) *)
+| CAuthProc (fired : bool) (status : N) (obs : hdr str).    (* the REAL sso-auth binary (cmd/sso-auth built from the tree under test,
+                                                               configured through its environment) over real HTTP;
+                                                               fired = the scenario makes the request outlast server.timeout.request *)
 
 (* ---- equality on observables ---- *)
 Definition cookie_eqb (a b : cookie) : bool :=
@@ -189,6 +192,11 @@ Definition mismatch_auth (obs : hdr str) : bool :=
   negb (forallb (fun kv => list_eqb hval_eqb (hget (canon (fst kv)) (auth_handle auth_security_headers []))
                                              (map VStr (hget (canon (fst kv)) obs))) auth_security_headers).
 
+Definition mismatch_auth_proc (fired : bool) (status : N) (obs : hdr str) : bool :=
+  negb (forallb (fun kv => list_eqb hval_eqb (hget (canon (fst kv)) (auth_process auth_security_headers fired []))
+                                             (map VStr (hget (canon (fst kv)) obs))) auth_security_headers) ||
+  (fired && negb (N.eqb status 503)).
+
 Definition judge (c : case) : N :=
   match c with
   | CProxy cfg q o responded status called obs cookies obs_trailer =>
@@ -198,6 +206,8 @@ Definition judge (c : case) : N :=
            (holds_proxy cfg q responded status called obs cookies)
            (known_proxy cfg q o status obs)
   | CAuth _ _ obs => code (mismatch_auth obs) (holds_auth obs) 0
+  | CAuthProc fired status obs =>
+      code (mismatch_auth_proc fired status obs) (holds_auth obs) 0
   end.
 
 Definition lclass_num (c : lclass) : N :=
@@ -223,4 +233,5 @@ Definition classify (c : case) : N :=
                 (if existsb (fun k => negb (is_nil (hget k obs_trailer))) protected_keys then 16 else 0)
             end)
   | CAuth ep _ _ => 200 + ep
+  | CAuthProc fired _ _ => 300 + (if fired then 1 else 0)
   end.
